@@ -533,12 +533,18 @@ PARSERS = ['placement.util:normalize_member_of_qs_param',
            'placement.util:normalize_resources_qs_param']
 
 
-def _prefix_tests(test):
+def _prefix_tests(test, f=None):
     """[(receiver src, literal, positive)] for startswith tests in a
-    condition (conjunctions and negations followed)."""
+    condition (conjunctions and negations followed; a local that holds the
+    result of one startswith call is read as that call)."""
     out = []
 
     def rec(e, pol):
+        if isinstance(e, ast.Name) and f is not None:
+            d = c05.single_def(f, e.id)
+            if d is not None and isinstance(d.value, ast.Call):
+                rec(d.value, pol)
+            return
         if isinstance(e, ast.UnaryOp) and isinstance(e.op, ast.Not):
             rec(e.operand, not pol)
         elif isinstance(e, ast.BoolOp):
@@ -563,7 +569,7 @@ def r136(ctx, R):
             if not isinstance(node, ast.If):
                 continue
             ptest, pbody, _pelse = C.pos_if(node)
-            pts = [p for p in _prefix_tests(ptest) if p[2]]
+            pts = [p for p in _prefix_tests(ptest, f) if p[2]]
             if len(pts) != 1:
                 continue
             recv, lit, _ = pts[0]
@@ -620,12 +626,12 @@ def r136(ctx, R):
     chain = []
     for node in own_nodes(f.node):
         if isinstance(node, ast.If):
-            pts = [p for p in _prefix_tests(node.test) if p[2]]
+            pts = [p for p in _prefix_tests(node.test, f) if p[2]]
             if len(pts) == 1 and not C.guarding_ifs(node, f.node):
                 cur = node
                 while True:
                     ct, _cb, celse = C.pos_if(cur)
-                    p = [x for x in _prefix_tests(ct) if x[2]]
+                    p = [x for x in _prefix_tests(ct, f) if x[2]]
                     if len(p) == 1:
                         chain.append(p[0][1])
                     if len(celse) == 1 and isinstance(celse[0], ast.If):
